@@ -306,13 +306,66 @@ STMT_TOKEN_PAIRS = [
 ]
 STMT_WHOLE = [("Assignment", ""), ("LocalAssignment", ""), ("FunctionCall", ""), ("If", ""), ("TypeDeclaration", LU_), ("TypeFunction", LU_)]
 STMT_NODE_SPEC = "".join(node_specs(ty, pre, [(lf, lt, "ref"), (tf, tt, "ref")], cfg=cfg, rest=True) for _, ty, pre, lf, lt, tf, tt, cfg in STMT_TOKEN_PAIRS) + """
-// assumed (class C): the implementations for LocalAssignment (cfg_if! blocks with early returns) and the two Luau declarations; their
-// postconditions are opaque here
-pub uninterp spec fn lasg_post(s: LocalAssignment, l: FormatTriviaType, t: FormatTriviaType, r: LocalAssignment) -> bool;
-impl UpdateTrivia for LocalAssignment {
-    open spec fn ut_post(&self, l: FormatTriviaType, t: FormatTriviaType, r: &Self) -> bool { lasg_post(*self, l, t, *r) }
-    #[verifier::external_body] fn update_trivia(&self, leading_trivia: FormatTriviaType, trailing_trivia: FormatTriviaType) -> (r: Self) { unimplemented!() }
+#[cfg(feature = "luau")] #[verifier::external_type_specification] #[verifier::external_body] pub struct ExTypeSpecifier(full_moon::ast::luau::TypeSpecifier);
+#[cfg(feature = "lua54")] #[verifier::external_type_specification] #[verifier::external_body] pub struct ExAttribute(full_moon::ast::lua54::Attribute);
+// ---- LocalAssignment: which part carries the statement's last token depends on what the statement has ----
+pub uninterp spec fn la_local(n: &LocalAssignment) -> TokenReference;
+pub uninterp spec fn la_names(n: &LocalAssignment) -> Punctuated<TokenReference>;
+pub uninterp spec fn la_exprs(n: &LocalAssignment) -> Punctuated<Expression>;
+pub uninterp spec fn la_rest(n: &LocalAssignment) -> int;
+#[cfg(feature = "luau")] pub uninterp spec fn la_specs(n: &LocalAssignment) -> Seq<Option<full_moon::ast::luau::TypeSpecifier>>;
+#[cfg(feature = "lua54")] pub uninterp spec fn la_attrs(n: &LocalAssignment) -> Seq<Option<full_moon::ast::lua54::Attribute>>;
+pub open spec fn la_same_but(a: &LocalAssignment, b: &LocalAssignment, local: bool, names: bool, exprs: bool, specs: bool, attrs: bool) -> bool {
+    &&& la_rest(b) == la_rest(a)
+    &&& (local || la_local(b) == la_local(a)) && (names || la_names(b) == la_names(a)) && (exprs || la_exprs(b) == la_exprs(a))
+    &&& la_specs_same(a, b, specs) && la_attrs_same(a, b, attrs)
 }
+#[cfg(feature = "luau")] pub open spec fn la_specs_same(a: &LocalAssignment, b: &LocalAssignment, free: bool) -> bool { free || la_specs(b) == la_specs(a) }
+#[cfg(not(feature = "luau"))] pub open spec fn la_specs_same(a: &LocalAssignment, b: &LocalAssignment, free: bool) -> bool { true }
+#[cfg(feature = "lua54")] pub open spec fn la_attrs_same(a: &LocalAssignment, b: &LocalAssignment, free: bool) -> bool { free || la_attrs(b) == la_attrs(a) }
+#[cfg(not(feature = "lua54"))] pub open spec fn la_attrs_same(a: &LocalAssignment, b: &LocalAssignment, free: bool) -> bool { true }
+pub assume_specification [LocalAssignment::local_token] (n: &LocalAssignment) -> (r: &TokenReference) ensures *r == la_local(n);
+pub assume_specification [LocalAssignment::names] (n: &LocalAssignment) -> (r: &Punctuated<TokenReference>) ensures *r == la_names(n);
+pub assume_specification [LocalAssignment::expressions] (n: &LocalAssignment) -> (r: &Punctuated<Expression>) ensures *r == la_exprs(n);
+pub assume_specification [LocalAssignment::with_local_token] (n: LocalAssignment, v: TokenReference) -> (r: LocalAssignment) ensures la_local(&r) == v, la_same_but(&n, &r, true, false, false, false, false);
+pub assume_specification [LocalAssignment::with_names] (n: LocalAssignment, v: Punctuated<TokenReference>) -> (r: LocalAssignment) ensures la_names(&r) == v, la_same_but(&n, &r, false, true, false, false, false);
+pub assume_specification [LocalAssignment::with_expressions] (n: LocalAssignment, v: Punctuated<Expression>) -> (r: LocalAssignment) ensures la_exprs(&r) == v, la_same_but(&n, &r, false, false, true, false, false);
+#[cfg(feature = "luau")] pub assume_specification [LocalAssignment::with_type_specifiers] (n: LocalAssignment, v: Vec<Option<full_moon::ast::luau::TypeSpecifier>>) -> (r: LocalAssignment) ensures la_specs(&r) == v@, la_same_but(&n, &r, false, false, false, true, false);
+#[cfg(feature = "lua54")] pub assume_specification [LocalAssignment::with_attributes] (n: LocalAssignment, v: Vec<Option<full_moon::ast::lua54::Attribute>>) -> (r: LocalAssignment) ensures la_attrs(&r) == v@, la_same_but(&n, &r, false, false, false, false, true);
+pub assume_specification [<LocalAssignment as Clone>::clone] (n: &LocalAssignment) -> (r: LocalAssignment) ensures r == *n;
+#[cfg(feature = "luau")] #[verifier::external_body] pub fn la_owned_specs(n: &LocalAssignment) -> (r: Vec<Option<full_moon::ast::luau::TypeSpecifier>>) ensures r@ == la_specs(n) { unimplemented!() /* n.type_specifiers().map(|x| x.cloned()).collect::<Vec<_>>() */ }
+#[cfg(feature = "lua54")] #[verifier::external_body] pub fn la_owned_attrs(n: &LocalAssignment) -> (r: Vec<Option<full_moon::ast::lua54::Attribute>>) ensures r@ == la_attrs(n) { unimplemented!() /* n.attributes().map(|x| x.cloned()).collect::<Vec<_>>() */ }
+#[cfg(feature = "luau")] pub uninterp spec fn tspec_utt_post(s: full_moon::ast::luau::TypeSpecifier, t: FormatTriviaType, r: full_moon::ast::luau::TypeSpecifier) -> bool;
+#[cfg(feature = "luau")] impl UpdateTrailingTrivia for full_moon::ast::luau::TypeSpecifier {
+    open spec fn utt_post(&self, t: FormatTriviaType, r: &Self) -> bool { tspec_utt_post(*self, t, *r) }
+    #[verifier::external_body] fn update_trailing_trivia(&self, trailing_trivia: FormatTriviaType) -> (r: Self) { unimplemented!() }
+}
+#[cfg(feature = "lua54")] pub uninterp spec fn attr_brackets(a: full_moon::ast::lua54::Attribute) -> ContainedSpan;
+#[cfg(feature = "lua54")] pub uninterp spec fn attr_rest(a: full_moon::ast::lua54::Attribute) -> int;
+#[cfg(feature = "lua54")] pub assume_specification [full_moon::ast::lua54::Attribute::brackets] (a: &full_moon::ast::lua54::Attribute) -> (r: &ContainedSpan) ensures *r == attr_brackets(*a);
+#[cfg(feature = "lua54")] pub assume_specification [full_moon::ast::lua54::Attribute::with_brackets] (a: full_moon::ast::lua54::Attribute, v: ContainedSpan) -> (r: full_moon::ast::lua54::Attribute) ensures attr_brackets(r) == v, attr_rest(r) == attr_rest(a);
+#[cfg(feature = "lua54")] pub assume_specification [<full_moon::ast::lua54::Attribute as Clone>::clone] (a: &full_moon::ast::lua54::Attribute) -> (r: full_moon::ast::lua54::Attribute) ensures r == *a;
+// the statement's last token: in the last value if there are values; else in the type of the last name, if it has one (Luau); else in the
+// attribute of the last name, if it has one (Lua 5.4); else in the last name
+pub open spec fn la_post(s: &LocalAssignment, l: FormatTriviaType, t: FormatTriviaType, r: &LocalAssignment) -> bool {
+    &&& la_local(s).ul_post(l, &la_local(r))
+    &&& if ppairs(la_exprs(s)).len() > 0 { la_exprs(s).utt_post(t, &la_exprs(r)) && la_same_but(s, r, true, false, true, false, false) }
+        else if la_last_spec(s) { la_spec_updated(s, t, r) && la_same_but(s, r, true, false, false, true, false) }
+        else if la_last_attr(s) { la_attr_updated(s, t, r) && la_same_but(s, r, true, false, false, false, true) }
+        else { la_names(s).utt_post(t, &la_names(r)) && la_same_but(s, r, true, true, false, false, false) }
+}
+#[cfg(feature = "luau")] pub open spec fn la_last_spec(s: &LocalAssignment) -> bool { la_specs(s).len() > 0 && la_specs(s).last() is Some }
+#[cfg(not(feature = "luau"))] pub open spec fn la_last_spec(s: &LocalAssignment) -> bool { false }
+#[cfg(feature = "luau")] pub open spec fn la_spec_updated(s: &LocalAssignment, t: FormatTriviaType, r: &LocalAssignment) -> bool {
+    la_specs(r).len() == la_specs(s).len() && la_specs(r).drop_last() == la_specs(s).drop_last() && la_specs(r).last() is Some && la_specs(s).last()->Some_0.utt_post(t, &la_specs(r).last()->Some_0)
+}
+#[cfg(not(feature = "luau"))] pub open spec fn la_spec_updated(s: &LocalAssignment, t: FormatTriviaType, r: &LocalAssignment) -> bool { true }
+#[cfg(feature = "lua54")] pub open spec fn la_last_attr(s: &LocalAssignment) -> bool { la_attrs(s).len() > 0 && la_attrs(s).last() is Some }
+#[cfg(not(feature = "lua54"))] pub open spec fn la_last_attr(s: &LocalAssignment) -> bool { false }
+#[cfg(feature = "lua54")] pub open spec fn la_attr_updated(s: &LocalAssignment, t: FormatTriviaType, r: &LocalAssignment) -> bool {
+    la_attrs(r).len() == la_attrs(s).len() && la_attrs(r).drop_last() == la_attrs(s).drop_last() && la_attrs(r).last() is Some && la_attrs(s).last()->Some_0.utt_post(t, &la_attrs(r).last()->Some_0)
+}
+#[cfg(not(feature = "lua54"))] pub open spec fn la_attr_updated(s: &LocalAssignment, t: FormatTriviaType, r: &LocalAssignment) -> bool { true }
 #[cfg(feature = "luau")] pub uninterp spec fn tdecl_post(s: full_moon::ast::luau::TypeDeclaration, l: FormatTriviaType, t: FormatTriviaType, r: full_moon::ast::luau::TypeDeclaration) -> bool;
 #[cfg(feature = "luau")] impl UpdateTrivia for full_moon::ast::luau::TypeDeclaration {
     open spec fn ut_post(&self, l: FormatTriviaType, t: FormatTriviaType, r: &Self) -> bool { tdecl_post(*self, l, t, *r) }
@@ -332,6 +385,8 @@ def stmt_post():
         arms.append(f"            {cfg}(Stmt::{v}(a), Stmt::{v}(b)) => {pre}_{lf}(&a).ul_post(l, &{pre}_{lf}(&b)) && {pre}_{tf}(&a).utt_post(t, &{pre}_{tf}(&b)) && {pre}_rest(&b) == {pre}_rest(&a),")
     return ("    open spec fn ut_post(&self, l: FormatTriviaType, t: FormatTriviaType, r: &Self) -> bool {\n        match (*self, *r) {\n" + "\n".join(arms) + "\n            _ => false,\n        }\n    }\n")
 IMPL_SPECS["Stmt"] = stmt_post()
+IMPL_SPECS["LocalAssignment"] = "    open spec fn ut_post(&self, l: FormatTriviaType, t: FormatTriviaType, r: &Self) -> bool { la_post(self, l, t, r) }\n"
+IMPL_SPECS["Attribute"] = "    open spec fn ut_post(&self, l: FormatTriviaType, t: FormatTriviaType, r: &Self) -> bool { attr_brackets(*self).ut_post(l, t, &attr_brackets(*r)) && attr_rest(*r) == attr_rest(*self) }\n"
 IMPL_SPECS.update({
     "Var:leading": "    open spec fn ul_post(&self, l: FormatTriviaType, r: &Self) -> bool { var_lead_frame(*self, l, *r) && var_id(*r) == var_id(*self) }\n",
     "Var:trailing": "    open spec fn utt_post(&self, t: FormatTriviaType, r: &Self) -> bool { var_trail_frame(*self, t, *r) && var_id(*r) == var_id(*self) }\n",
@@ -603,6 +658,16 @@ impl UpdateTrailingTrivia for Prefix {
         macro_impl("Assignment"),
         macro_impl("Return"),
         Raw(STMT_NODE_SPEC, module=M),
+        macro_impl("Attribute", attrs='#[cfg(feature = "lua54")]\n'),
+        macro_impl("LocalAssignment", edits=[
+            Hole('cfg_if::cfg_if!(\n            if #[cfg(feature = "luau")] {', '#[cfg(feature = "luau")] {', kind="rewrite", why="cfg_if! with one branch, written as the cfg attribute on a block it stands for"),
+            Hole('cfg_if::cfg_if!(\n            if #[cfg(feature = "lua54")] {', '#[cfg(feature = "lua54")] {', kind="rewrite", why="cfg_if! with one branch, written as the cfg attribute on a block it stands for"),
+            Hole("            }\n        );", "            }", count=2, kind="rewrite", why="the end of the cfg_if! invocation"),
+            Hole("this.type_specifiers().map(|x| x.cloned()).collect::<Vec<_>>();", "la_owned_specs(this);", kind="wrapper", why="iterator chain: the type specifiers as an owned Vec"),
+            Hole("this.attributes().map(|x| x.cloned()).collect::<Vec<_>>();", "la_owned_attrs(this);", kind="wrapper", why="iterator chain: the attributes as an owned Vec"),
+            After("type_specifiers.push(Some(type_specifier.update_trailing_trivia(trailing)));", "proof { assert(type_specifiers@.drop_last() =~= la_specs(this).drop_last()); }"),
+            After("attributes.push(Some(attribute.update_trailing_trivia(trailing)));", "proof { assert(attributes@.drop_last() =~= la_attrs(this).drop_last()); }"),
+        ]),
         macro_impl("Stmt"),
         macro_impl("LastStmt", edits=[Hole("r#return", "vx_return", count=2, kind="rewrite", why="the raw identifier `r#return` is renamed: this Verus panics while encoding it (air/src/smt_verify.rs, `discovered_error`)")]),
         Raw(proxy_specs(), module=M),
@@ -647,4 +712,4 @@ LABELS = {
     "C03.token_both_proxy": dict(props=["C01", "C02", "C03"], text="what the other units assume about update_trivia on a token follows from the verified implementation"),
 }
 
-UNIT = Unit("trivia", items() + [VERIF_MOD], LABELS, macros=[(TRV, "binop_trivia")], feature_sets=("default", "all", "luau", "luajit"), header=HEADER + "use full_moon::ast::punctuated::Pair;\nuse full_moon::ast::Parameter;\n")
+UNIT = Unit("trivia", items() + [VERIF_MOD], LABELS, macros=[(TRV, "binop_trivia")], feature_sets=("default", "all", "luau", "luajit"), header=HEADER + "use full_moon::ast::punctuated::Pair;\nuse full_moon::ast::Parameter;\n#[cfg(feature = \"lua54\")] use full_moon::ast::lua54::Attribute;\n")
